@@ -81,6 +81,11 @@ func c16rGeneration(nodes int, policy string) (*ControlPlane, []*dialer.Dialer) 
 	g := outbound.NewDialerGroup(gopt, "g", ds, ann, c16rPolicy(policy), func(bool, *dialer.NetworkType, bool) {})
 	cp := &ControlPlane{log: log}
 	cp.outbounds = []*outbound.DialerGroup{g}
+	if nodes >= 3 {
+		// a second group made of nodes the first one has as well (the same node objects): every non-empty group is owed a selectable node
+		g2 := outbound.NewDialerGroup(gopt, "narrow", ds[:2], ann[:2], c16rPolicy(policy), func(bool, *dialer.NetworkType, bool) {})
+		cp.outbounds = append(cp.outbounds, g2)
+	}
 	return cp, ds
 }
 
@@ -146,20 +151,51 @@ func TestVerifC16Reload(t *testing.T) {
 						}
 					}
 					res.Eval(2)
-					if any {
-						for i := range now {
-							if now[i] != known[name][i] {
-								res.Failf(key+"|"+name, trail, "%v: after the reload node n%d is alive=%v for %s, the last known state was alive=%v (known %v, inherited %v)", trail, i+1, now[i], name, known[name][i], known[name], now)
-								break
-							}
+					// groups: the first has every node; the second (when present) the first two
+					members := [][]int{{}}
+					for i := range nds {
+						members[0] = append(members[0], i)
+					}
+					if len(neu.outbounds) > 1 {
+						members = append(members, []int{0, 1})
+					}
+					owed := 0 // groups none of whose members was alive: each is owed one selectable node
+					for _, ms := range members {
+						alive := false
+						for _, i := range ms {
+							alive = alive || known[name][i]
 						}
-					} else if n != 1 && !strings.HasPrefix(policy, "fixed") {
-						res.Failf(key+"|"+name, trail, "%v: no node was alive for %s before the reload; afterwards %d nodes are alive for it (%v): exactly one selectable node must be kept", trail, name, n, now)
+						if !alive {
+							owed++
+						}
 					}
-					// the group must be able to select for every type
-					if d, _, serr := neu.outbounds[0].Select(nt, false); serr != nil || d == nil {
-						res.Failf(key+"|select|"+name, trail, "%v: after the reload the group cannot select a node for %s: %v", trail, name, serr)
+					revived := 0
+					for i := range now {
+						if known[name][i] && !now[i] {
+							res.Failf(key+"|"+name, trail, "%v: after the reload node n%d is not alive for %s, the last known state was alive (known %v, inherited %v)", trail, i+1, name, known[name], now)
+							break
+						}
+						if now[i] && !known[name][i] {
+							revived++
+						}
 					}
+					if !strings.HasPrefix(policy, "fixed") {
+						if revived > owed {
+							res.Failf(key+"|"+name, trail, "%v: %d nodes that were last known dead for %s are alive after the reload (known %v, inherited %v); only a group without any alive member is given one selectable node (%d such groups)", trail, revived, name, known[name], now, owed)
+						}
+						if !any && n < 1 {
+							res.Failf(key+"|"+name, trail, "%v: no node was alive for %s before the reload and none is selectable afterwards (%v)", trail, name, now)
+						}
+					}
+					// every group must be able to select for every type
+					for gi, g := range neu.outbounds {
+						if d, _, serr := g.Select(nt, true); serr != nil || d == nil { // (strict: the other IP family must not stand in for the type)
+							res.Failf(key+"|select|"+name+fmt.Sprint(gi), trail, "%v: after the reload group %q (nodes %v) cannot select a node for %s: %v (last known %v, inherited %v)", trail, g.Name, members[gi], name, serr, known[name], now)
+						}
+					}
+				}
+				for _, g := range neu.outbounds[1:] {
+					_ = g.Close()
 				}
 				_ = neu.outbounds[0].Close()
 				for _, d := range nds {
@@ -167,7 +203,9 @@ func TestVerifC16Reload(t *testing.T) {
 				}
 			}
 		}
-		_ = old.outbounds[0].Close()
+		for _, g := range old.outbounds {
+			_ = g.Close()
+		}
 		for _, d := range ods {
 			_ = d.Close()
 		}
